@@ -10,7 +10,7 @@ vars == <<v_pos, v_trials, v_fails, v_certified>>
 Chk(c, m) == IF c THEN TRUE ELSE PrintT(<<"MISMATCH", m>>) /\ FALSE
 
 StatEvents == {n \in 1..Len(Rec) : Rec[n].ev = "stat"}
-PreTab == TLCEval([ti \in {TabIdx(Rec[n].k) : n \in StatEvents} |-> PreRows(ParamTab[ti])])
+PreTab == TLCEval([ti \in {TabIdx(Rec[n].k) : n \in {x \in StatEvents : Len(Rec[x].fails) > 0}} |-> PreRows(ParamTab[ti])])     \* only where a failing set has to be certified
 IsisOf(K, pr, S) == SetToSeq({e \in S : e < K} \cup (K..(pr.Kp - 1)) \cup {e + pr.Kp - K : e \in {x \in S : x >= K}})
 SeqToSet(sq) == {sq[i] : i \in 1..Len(sq)}
 Determined(K, S) == (\A i \in 0..(K-1) : i \in S) \/
@@ -49,8 +49,14 @@ RatesOk ==
   /\ Totals[0][1] >= MinTrials[1] => Chk(100 * Totals[0][2] < Totals[0][1], <<"failure rate at zero overhead is not below 1%", Totals[0]>>)
   /\ Totals[1][1] >= MinTrials[2] => Chk(10 * Totals[1][2] < Totals[1][1] \div 1000, <<"failure rate at one extra symbol is not below 0.01%", Totals[1]>>)
   /\ Totals[2][1] >= MinTrials[3] => Chk(100 * Totals[2][2] < Totals[2][1] \div 1000, <<"failure rate at two extra symbols is not below 0.001%", Totals[2]>>)
+\* a small sample (500 <= n < 20000 trials at zero overhead, e.g. the large-K leg where one decode takes seconds): alarm only
+\* if the failures exceed the advertised 1% by more than 6 standard deviations of a count with that mean (the measured rate is
+\* about 0.5%, i.e. far below even the mean)
+SmallRateOk == LET n == Totals[0][1]  f == Totals[0][2]  m == n \div 100 IN
+               (n >= 500 /\ n < MinTrials[1]) =>
+                  Chk(f <= m \/ (f - m) * (f - m) <= 36 * m, <<"failure rate at zero overhead exceeds 1% by more than 6 standard deviations", Totals[0]>>)
 Accepted == LET d == TLCGet("stats").diameter IN
             IF d - 1 = Len(Rec) /\ Rec[Len(Rec)].ev = "end"
-            THEN (IF RatesOk THEN PrintT(<<"TOTALS", Totals>>) ELSE PrintT(<<"REJECTED", 0>>) /\ FALSE)
+            THEN (IF RatesOk /\ SmallRateOk THEN PrintT(<<"TOTALS", Totals>>) ELSE PrintT(<<"REJECTED", 0>>) /\ FALSE)
             ELSE PrintT(<<"REJECTED", d>>) /\ FALSE
 =============================================================================
